@@ -1,5 +1,8 @@
 use super::optimization_common::{BinaryBindedValue, BindedValue, IndexAccessBindedValue};
-use samlang_ast::mir::{Binary, Function, Statement};
+use samlang_ast::{
+  hir::BinaryOperator,
+  mir::{Binary, Function, Statement},
+};
 use samlang_heap::TempPStrCounter;
 use std::collections::BTreeSet;
 
@@ -7,7 +10,21 @@ fn intersection_of(
   set1: BTreeSet<BindedValue>,
   others: Vec<BTreeSet<BindedValue>>,
 ) -> Vec<BindedValue> {
-  set1.into_iter().filter(|e| others.iter().all(|it| it.contains(e))).collect()
+  set1
+    .into_iter()
+    .filter(|e| others.iter().all(|it| it.contains(e)))
+    // A division can trap: computed in front of the if-else it would trap before the effects
+    // (calls) that precede it inside the branches.
+    .filter(|e| {
+      !matches!(
+        e,
+        BindedValue::Binary(BinaryBindedValue {
+          operator: BinaryOperator::DIV | BinaryOperator::MOD,
+          ..
+        })
+      )
+    })
+    .collect()
 }
 
 fn optimize_stmts(
